@@ -5,7 +5,7 @@
 // (`cfg(kani)`, which has no threads) `spawn` runs the closure inline, i.e. the "background
 // thread" runs to its next blocking point at once, and counts how often it was called.
 //
-// `sinks/core.rs` takes `AtomicU64` from here when the guard is on: a pass-through to
+// `sinks/core.rs` and `sinks/queuing.rs` take `AtomicU64` from here when the guard is on: a pass-through to
 // `std::sync::atomic` in an ordinary build; under Kani a wrapper that lets "other threads" add an
 // arbitrary amount to the counter before every access and keeps a ghost total of what they added,
 // so that a harness can state "no increment is ever lost, whatever the others do".
@@ -70,6 +70,10 @@ pub(crate) mod atomic {
         }
 
         impl AtomicU64 {
+            pub const fn new(v: u64) -> Self {
+                AtomicU64 { v: Real::new(v), others: Real::new(0) }
+            }
+
             fn interfere(&self) {
                 if INTERFERE.load(Ordering::SeqCst) {
                     let x: u64 = kani::any();
